@@ -98,7 +98,8 @@ pub enum Case {
 }
 
 fn act() -> impl Strategy<Value = Act> {
-    (prop::sample::select(KINDS.to_vec()), prop::sample::select(WHOS.to_vec())).prop_map(|(kind, who)| Act { kind, who })
+    // (long patterns of owner actions - upgrade, migrate, upgrade, migrate, migrate - matter: half of the acts are the owner's)
+    (prop::sample::select(KINDS.to_vec()), prop_oneof![3 => Just(Who::Owner), 3 => prop::sample::select(WHOS.to_vec())]).prop_map(|(kind, who)| Act { kind, who })
 }
 
 fn all_seqs(max_len: usize) -> Vec<Vec<Act>> {
